@@ -220,6 +220,16 @@ func main() {
 			if math.Abs(pa-(oa-math.Abs(base))) > 1e-9*oa {
 				c.Failf("polygon-area", "Area(polygon with hole) = %v, outer %v - hole %v | %v", pa, oa, math.Abs(base), ring)
 			}
+			// the hole given without its closing point is the same ring (rings close implicitly)
+			if pu := geo.Area(orb.Polygon{outer, ring}); math.Abs(pu-pa) > 1e-9*oa {
+				c.Failf("polygon-area", "Area(polygon with the hole spelled unclosed) = %v, with the hole closed %v | %v", pu, pa, ring)
+			}
+			if pu := geo.Area(orb.Polygon{outer[:len(outer)-1], closed}); math.Abs(pu-pa) > 1e-9*oa {
+				c.Failf("polygon-area", "Area(polygon with the outer ring spelled unclosed) = %v, closed %v | %v", pu, pa, ring)
+			}
+			if mu := geo.Area(orb.MultiPolygon{{outer, ring}, {ring}}); math.Abs(mu-(pa+math.Abs(base))) > 1e-9*oa {
+				c.Failf("multipolygon-area", "Area(multi, unclosed spellings) = %v, want %v | %v", mu, pa+math.Abs(base), ring)
+			}
 			ma := geo.Area(orb.MultiPolygon{{outer, closed}, {closed}})
 			if math.Abs(ma-(pa+math.Abs(base))) > 1e-9*oa {
 				c.Failf("multipolygon-area", "Area(multi) = %v, want %v | %v", ma, pa+math.Abs(base), ring)
